@@ -56,7 +56,37 @@ func newFsEnvs() ([]fsEnv, func()) {
 	mem := filesystem.NewFs(filesystem.InMemoryFS).(*filesystem.VFS)
 	_ = mem.MkDir("/locks")
 	osfs := filesystem.NewFs(filesystem.StandardFS).(*filesystem.VFS)
-	return []fsEnv{{"mem", mem, "/locks"}, {"os", osfs, tmp}}, func() { os.RemoveAll(tmp) }
+	// the OS backend under I/O load: every write to a heart-beat file takes a few milliseconds
+	tmp2, _ := os.MkdirTemp("", "verif-lock-slow")
+	slow := filesystem.NewVirtualFileSystem(&slowLockFs{Fs: afero.NewOsFs(), delay: 6 * time.Millisecond}, filesystem.StandardFS, filesystem.IdentityPathConverterFunc).(*filesystem.VFS)
+	return []fsEnv{{"mem", mem, "/locks"}, {"os", osfs, tmp}, {"os-slow-heartbeat-writes", slow, tmp2}}, func() { os.RemoveAll(tmp); os.RemoveAll(tmp2) }
+}
+
+// slowLockFs delays the operations that write a heart-beat file (`*.lock`): opening it for writing and stamping it
+type slowLockFs struct {
+	afero.Fs
+	delay time.Duration
+}
+
+func (s *slowLockFs) OpenFile(name string, flag int, perm os.FileMode) (afero.File, error) {
+	if strings.HasSuffix(name, ".lock") && flag&(os.O_WRONLY|os.O_RDWR|os.O_CREATE) != 0 {
+		time.Sleep(s.delay)
+	}
+	return s.Fs.OpenFile(name, flag, perm)
+}
+
+func (s *slowLockFs) Create(name string) (afero.File, error) {
+	if strings.HasSuffix(name, ".lock") {
+		time.Sleep(s.delay)
+	}
+	return s.Fs.Create(name)
+}
+
+func (s *slowLockFs) Chtimes(name string, atime, mtime time.Time) error {
+	if strings.HasSuffix(name, ".lock") {
+		time.Sleep(s.delay / 2)
+	}
+	return s.Fs.Chtimes(name, atime, mtime)
 }
 
 var lockSeq int64
